@@ -330,6 +330,16 @@ add("C01", "open", "render-differs:python-stack-exhausted-on-one-side:extends-bl
     "escape. Same root cause as C09's open stack-exhaustion findings; not repaired for the reason given there",
     json.load(open(os.path.join(VERIF, "tools", "witnesses", "C01-stack.json"))))
 
+# ----------------------------------------------------------------------------- C02 round 4 (both first reported by an independent sub-agent)
+add("C02", "open", "escape:OverflowError[len-of-huge-range]",
+    "a range object with more than sys.maxsize items given as render data: len() raises OverflowError from the size filter, the .size path segment, for and tablerow "
+    "(literal ranges are bounded, so this needs range(10**30) in the data). Not repaired: a faithful fix needs an arithmetic range length in four places plus a guard for islice",
+    [c02("{{ r | size }}", {"r": range(10**30)}), c02("{{ r.size }}", {"r": range(10**30)}), c02("{% for i in r limit: 2 %}{{ i }}{% endfor %}", {"r": range(10**30)}),
+     c02("{% tablerow i in r limit: 2 %}{{ i }}{% endtablerow %}", {"r": range(-(10**30), 10**30)})])
+add("C02", "fixed", "escape:AssertionError@extra/tags/extends_tag.py:_build_block_stacks",
+    "a macro whose body contains an extends tag, defined in an included template and called from the including one, hit a bare assert (sync and async)",
+    [c02("{% include 'mac' %}{% call mm 1 %}"), c02("{% include 'mac' %}{% call mm 1 %}", **{"async": True}), c02("{% include 'mac' %}{% for i in (1..2) %}{% call mm i %}{% endfor %}", mode="lax")], "98a8fba")
+
 if __name__ == "__main__":
     # further entries are appended by tools/mkfindings.py from triaged replay files and kept in findings_extra.json
     extra_path = os.path.join(VERIF, "tools", "findings_extra.json")
